@@ -20,7 +20,9 @@ package payment
 //@ ensures [paid]    err == nil ==> paid == upd(old(paid), string(account), old(paid)[string(account)] + bigval(paymentAmount)) && effects == old(effects) + 1
 //@ ensures [failed]  err != nil ==> paid == old(paid) && effects == old(effects)
 //@ ensures [errkind] plainError(err)
-//@ modifies paid, effects
+// settling is a slow call to the outside; meanwhile other requests (keep-alives crediting this wallet's hosts) go on:
+// the balances of the store are not the same afterwards. The request's own log of balance operations is.
+//@ modifies paid, effects, acredit, tcredit, total
 
 //@ func (*PaymentService).verify
 //@ property C04 C05 C06 C15
@@ -70,16 +72,21 @@ package payment
 //@                                    && bigval(err.(WithdrawBalanceMinimumError).Balance) == old(spendableOf(p.BalanceStore, wallet))
 //@ ensures [pays-exactly]     {C07} err == nil ==> paid == upd(old(paid), wallet, old(paid)[wallet] +
 //@                                    ite(p.WithdrawFee != nil, feeOf(old(spendableOf(p.BalanceStore, wallet))), old(spendableOf(p.BalanceStore, wallet))))
-//@ ensures [nothing-left]     {C07} err == nil ==> p.BalanceStore.acredit == upd(old(p.BalanceStore.acredit), store.Account(wallet), 0) && p.BalanceStore.tcredit == old(p.BalanceStore.tcredit)
+// What the withdrawal itself did to the ledger is read off the request's log of balance operations (the balances
+// themselves may have moved during the settlement): a successful withdrawal took exactly the credit it saw at entry,
+// once; a failed one either did nothing or took that credit and gave exactly the same amount back.
+//@ ensures [takes-exactly-the-credit-once] {C01 C07} err == nil ==> p.BalanceStore.loglen == old(p.BalanceStore.loglen) + 1
+//@        && p.BalanceStore.logacct[old(p.BalanceStore.loglen)] == store.Account(wallet) && p.BalanceStore.logamt[old(p.BalanceStore.loglen)] == 0 - old(p.BalanceStore.acredit[store.Account(wallet)])
 //@ ensures [failure-pays-nothing] {C07} err != nil ==> paid == old(paid)
 // restoreFailed: the credit was debited, the settlement failed, and the store then refused to take the credit back
 // (two balance calls attempted, only the first one succeeded). This is the one case in which a failed withdrawal
 // cannot leave the balance as it was.
-//@ ensures [failure-keeps-balance] {C07} err != nil && !(p.BalanceStore.attempts == old(p.BalanceStore.attempts) + 2 && p.BalanceStore.loglen == old(p.BalanceStore.loglen) + 1)
-//@                                    ==> store.sameCredit(p.BalanceStore)
-//@ ensures [ledger]           {C01} (err == nil ==> p.BalanceStore.total == old(p.BalanceStore.total) - old(p.BalanceStore.acredit[store.Account(wallet)]))
-//@                                    && (err != nil && !(p.BalanceStore.attempts == old(p.BalanceStore.attempts) + 2 && p.BalanceStore.loglen == old(p.BalanceStore.loglen) + 1)
-//@                                        ==> p.BalanceStore.total == old(p.BalanceStore.total))
+//@ ensures [failure-gives-back-exactly-what-was-taken] {C01 C07} err != nil && !(p.BalanceStore.attempts == old(p.BalanceStore.attempts) + 2 && p.BalanceStore.loglen == old(p.BalanceStore.loglen) + 1)
+//@        ==> p.BalanceStore.loglen == old(p.BalanceStore.loglen)
+//@            || (p.BalanceStore.loglen == old(p.BalanceStore.loglen) + 2
+//@                && p.BalanceStore.logacct[old(p.BalanceStore.loglen)] == store.Account(wallet) && p.BalanceStore.logacct[old(p.BalanceStore.loglen) + 1] == store.Account(wallet)
+//@                && p.BalanceStore.logamt[old(p.BalanceStore.loglen)] + p.BalanceStore.logamt[old(p.BalanceStore.loglen) + 1] == 0)
+//@ ensures [untouched-without-a-settlement] {C01 C07} p.BalanceStore.loglen == old(p.BalanceStore.loglen) && p.BalanceStore.attempts == old(p.BalanceStore.attempts) ==> store.sameCredit(p.BalanceStore) && p.BalanceStore.total == old(p.BalanceStore.total)
 //@ ensures [unlocked]         {C07 C10} !held(p.mu)
 //@ callreq BalanceStore [critical-section] {C07 C10} : held(p.mu)
 //@ callreq PaymentService.Settle [critical-section] {C07 C10} : held(p.mu)
